@@ -6,9 +6,8 @@ import O2oModel.Expand
 import O2oModel.Lemmas.TokEq
 namespace O2o
 
-/-- the deriving type's own parameters -/
-def declaredParams (gens : List GParam) : List IParam :=
-  gens.map fun g => { isLifetime := g.kind == .lifetime, name := g.name, full := g.full, punct := g.punct }
+/-- the deriving type's own parameters, as the impl declares them (`ImplGenerics`: bounds kept, defaults left off) -/
+abbrev declaredParams (gens : List GParam) : List IParam := implFormParams gens
 
 theorem pushParam_length (ps : List IParam) (x : IParam) : (pushParam ps x).length = ps.length + 1 := by
   unfold pushParam
@@ -22,10 +21,18 @@ theorem pushParam_length (ps : List IParam) (x : IParam) : (pushParam ps x).leng
       simpa using this
     simp [this]
 
-/-- C11-1 (these_gens): the deriving type is followed by its own parameter list exactly as declared (all of them, in
-    order; lifetimes printed first as `Generics::to_tokens` does) -/
+/-- C11-1 (these_gens): the deriving type is followed by its own parameters *in argument form* — every one of them, in
+    order, by its bare name (`'a`, `T`, `N`; lifetimes printed first as `TypeGenerics::to_tokens` does): no bound, no
+    default, no `const` keyword is pasted after the type (fix 6f54c9a; the pinned tree printed the declaration form) -/
 theorem C11_these_gens (input : DataType) (ctx : ImplContext) :
-    (getQuoteTraitParams input ctx).theseGens = printGenerics (declaredParams input.generics) := rfl
+    (getQuoteTraitParams input ctx).theseGens = printGenerics (typeFormParams input.generics) := rfl
+
+/-- every parameter printed after the type is exactly its name -/
+theorem C11_these_gens_are_names (gens : List GParam) : ∀ p ∈ typeFormParams gens, p.full = p.name := by
+  intro p hp
+  simp only [typeFormParams, List.mem_map] at hp
+  obtain ⟨g, _, rfl⟩ := hp
+  rfl
 
 /-- no generics ⇒ nothing is printed after the type, and nothing is declared on the impl unless a lifetime is added -/
 theorem C11_no_generics : printGenerics [] = [] := rfl
@@ -53,7 +60,7 @@ theorem C11_o2o_declared (input : DataType) (ctx : ImplContext) (h : (refLifetim
 theorem C11_o2o_absent (input : DataType) (ctx : ImplContext) (h : (refLifetimes input ctx).isEmpty = true) :
     implParams input ctx = withMissingLifetimes (declaredParams input.generics) (thoseLifetimes ctx.structAttr.ty) := by
   unfold implParams
-  simp [h, declaredParams]
+  simp [h, declaredParams, implFormParams]
 
 /-- owned conversions never introduce `'o2o` -/
 theorem C11_owned_no_o2o (input : DataType) (ctx : ImplContext) (h : ctx.kind.isRef = false) : refLifetimes input ctx = [] := by
